@@ -39,6 +39,7 @@ type Scenario struct {
 	Cfg      Config         `json:"config"`
 	Init     []KV           `json:"init"`
 	Clients  []Client       `json:"clients"`
+	Hist     []HistStmt     `json:"hist,omitempty"` // history with intended effects (C11/C12); Clients[0] is derived from it
 	Faults   []Fault        `json:"faults,omitempty"`
 	Schedule []int          `json:"schedule,omitempty"`
 	Topology string         `json:"topology,omitempty"`
@@ -100,7 +101,9 @@ func (r *StmtRes) Outcome() string {
 	return "ok"
 }
 
-const maxPolls = 100000
+// maxPolls bounds one drain: stores hold at most a few hundred pairs, so a
+// drain that has not reached end-of-stream after this many polls will not.
+const maxPolls = 3000
 
 func panicText(p any) string {
 	s := fmt.Sprint(p)
